@@ -18,5 +18,5 @@ Definition enum_mul (c : small_curve) : bool :=
       | None => true
       end) (Zrange 0 (3 * n + 1))) (scalings p P)) pts.
 
-Lemma small_enum_mul : forallb enum_mul small_curves = true.
+Lemma small_enum_mul : forallb enum_mul enum_curves = true.
 Proof. vm_cast_no_check (eq_refl true). Qed.
